@@ -347,7 +347,8 @@ func (g *ProgGen) Postfix(d int) string {
 	}
 	for i := 0; i < n; i++ {
 		k := g.R.Intn(6)
-		if g.Clean && k <= 2 && len(e) > 0 && e[len(e)-1] >= '0' && e[len(e)-1] <= '9' && !strings.ContainsAny(e, ".)]\"") {
+		core := strings.Trim(e, "()")
+		if g.Clean && k <= 2 && len(core) > 0 && core[0] >= '0' && core[0] <= '9' && !strings.ContainsAny(core, ".)]\"( [") {
 			k = 3 + g.R.Intn(3) // no member access directly on an integer literal
 		}
 		switch k {
